@@ -454,7 +454,11 @@ func (pc *PeerConnection) checkNegotiationNeeded() bool { //nolint:gocognit,cycl
 			}
 		case SDPTypeAnswer:
 			// Step 5.3.3
-			if _, ok := mid.Attribute(transceiver.Direction().String()); !ok {
+			direction := transceiver.Direction()
+			if rm := getByMid(transceiver.Mid(), remoteDesc); rm != nil {
+				direction = answerDirection(direction, getPeerDirection(rm))
+			}
+			if _, ok := mid.Attribute(direction.String()); !ok {
 				return true
 			}
 		default:
@@ -3102,10 +3106,14 @@ func (pc *PeerConnection) generateMatchedSDP(
 			mediaTransceivers := []*RTPTransceiver{transceiver}
 
 			extensions, _ := rtpExtensionsFromMediaDescription(media)
-			mediaSections = append(
-				mediaSections,
-				mediaSection{id: midValue, transceivers: mediaTransceivers, matchExtensions: extensions, rids: getRids(media)},
-			)
+			section := mediaSection{
+				id: midValue, transceivers: mediaTransceivers, matchExtensions: extensions, rids: getRids(media),
+			}
+			if !includeUnmatched {
+				// We are answering, the direction has to be a response to the offered one
+				section.offered = direction
+			}
+			mediaSections = append(mediaSections, section)
 		}
 	}
 
